@@ -539,3 +539,206 @@ Section Cross.
     - cbn [crossF]. unfold row_result. rewrite Es. destruct (map_until (g a) lb) as [r e0]. destruct e0; reflexivity.
   Qed.
 End Cross.
+
+(* ------------------------------------------------------------------ merge *)
+
+Section Merge.
+  Variables (ci : N) (less : pr2) (p1 p2 : pipe).
+  Let PM := PMerge ci less p1 p2.
+
+  Definition end_side (other : list Z) (st_other st : status) : partial :=
+    match st with Closed => (other, st_other) | Open => ([], Open) | Failed e => ([], Failed e) end.
+
+  Definition pcons (x : Z) (pl : partial) : partial := (x :: fst pl, snd pl).
+
+  (* eager merge of two observations (structural: no fuel) *)
+  Fixpoint mergeF (la : list Z) (sta : status) (lb : list Z) (stb : status) {struct la} : partial :=
+    match la with
+    | [] => end_side lb stb sta
+    | x :: ra =>
+        (fix go (lb : list Z) : partial :=
+           match lb with
+           | [] => end_side (x :: ra) sta stb
+           | y :: rb =>
+               match less x y with
+               | Ok true => pcons x (mergeF ra sta (y :: rb) stb)
+               | Ok false => pcons y (go rb)
+               | Err e => ([], Failed e)
+               end
+           end) lb
+    end.
+
+  Lemma mergeF_cons_nil : forall x ra sta stb, mergeF (x :: ra) sta [] stb = end_side (x :: ra) sta stb.
+  Proof. reflexivity. Qed.
+
+  Lemma mergeF_cons_cons : forall x ra sta y rb stb,
+    mergeF (x :: ra) sta (y :: rb) stb =
+    match less x y with
+    | Ok true => pcons x (mergeF ra sta (y :: rb) stb)
+    | Ok false => pcons y (mergeF (x :: ra) sta rb stb)
+    | Err e => ([], Failed e)
+    end.
+  Proof. reflexivity. Qed.
+
+  Lemma mergeF_nil_closed : forall la sta, mergeF la sta [] Closed = (la, sta).
+  Proof. intros [|x ra] sta; [destruct sta; reflexivity|reflexivity]. Qed.
+
+  Lemma yP_done : forall P Q l, next P Q = (l, Done) -> yieldsP P Q ([], Closed).
+  Proof. intros P Q l H. unfold yieldsP. cbn [fst snd]. eapply Y_done. eassumption. Qed.
+
+  Lemma yP_item' : forall P Q l o Q' pl, next P Q = (l, Item o Q') -> yieldsP P Q' pl -> yieldsP P Q (pcons o pl).
+  Proof. intros. unfold pcons. eapply yP_item; eassumption. Qed.
+
+  (* the second list has ended: the rest of the first one is copied *)
+  Lemma merge_b_ended : forall q1 la sta, yields p1 q1 la sta ->
+    forall q2, yieldsP PM (QMerge false true None None q1 q2) (la, sta).
+  Proof.
+    intros q1 la sta H. induction H as [q|q l H|q l e H|q l q' items st H Hy IH|q l v q' items st H Hy IH]; intros q2.
+    - apply Y_open.
+    - eapply yP_skip; [unfold PM; cbn [next]; rewrite H; reflexivity|].
+      eapply yP_done. unfold PM. cbn [next]. reflexivity.
+    - eapply yP_fail. unfold PM. cbn [next]. rewrite H. reflexivity.
+    - eapply yP_skip; [unfold PM; cbn [next]; rewrite H; reflexivity|apply IH].
+    - eapply yP_skip; [unfold PM; cbn [next]; rewrite H; reflexivity|].
+      eapply (yP_item _ _ _ _ _ (items, st)); [unfold PM; cbn [next]; reflexivity|apply IH].
+  Qed.
+
+  (* the first list has ended: the waiting element and the rest of the second one are copied *)
+  Lemma merge_a_ended_none : forall q2 lb stb, yields p2 q2 lb stb ->
+    forall q1, yieldsP PM (QMerge true false None None q1 q2) (lb, stb).
+  Proof.
+    intros q2 lb stb H. induction H as [q|q l H|q l e H|q l q' items st H Hy IH|q l v q' items st H Hy IH]; intros q1.
+    - apply Y_open.
+    - eapply yP_skip; [unfold PM; cbn [next]; rewrite H; reflexivity|].
+      eapply yP_done. unfold PM. cbn [next]. reflexivity.
+    - eapply yP_fail. unfold PM. cbn [next]. rewrite H. reflexivity.
+    - eapply yP_skip; [unfold PM; cbn [next]; rewrite H; reflexivity|apply IH].
+    - eapply yP_skip; [unfold PM; cbn [next]; rewrite H; reflexivity|].
+      eapply (yP_item _ _ _ _ _ (items, st)); [unfold PM; cbn [next]; reflexivity|apply IH].
+  Qed.
+
+  Definition ob (b : option Z) : list Z := match b with Some y => [y] | None => [] end.
+
+  Lemma merge_a_ended : forall q2 lb stb, yields p2 q2 lb stb ->
+    forall b q1, yieldsP PM (QMerge true false None b q1 q2) (ob b ++ lb, stb).
+  Proof.
+    intros q2 lb stb H b q1. destruct b as [y|]; cbn [ob app].
+    - eapply (yP_item _ _ _ _ _ (lb, stb)); [unfold PM; cbn [next]; reflexivity|].
+      apply merge_a_ended_none. exact H.
+    - apply merge_a_ended_none. exact H.
+  Qed.
+
+  (* an element x of the first list is waiting, none of the second *)
+  Lemma merge_a_waiting : forall x la sta q1,
+    (forall b q2 lb stb, yields p2 q2 lb stb ->
+       yieldsP PM (QMerge false false None b q1 q2) (mergeF la sta (ob b ++ lb) stb)) ->
+    (forall q2, yieldsP PM (QMerge false true None None q1 q2) (la, sta)) ->
+    forall q2 lb stb, yields p2 q2 lb stb ->
+    yieldsP PM (QMerge false false (Some x) None q1 q2) (mergeF (x :: la) sta lb stb).
+  Proof.
+    intros x la sta q1 IHA HE q2 lb stb H.
+    induction H as [q|q l H|q l e H|q l q' items st H Hy IH|q l v q' items st H Hy IH].
+    - rewrite mergeF_cons_nil. apply Y_open.
+    - rewrite mergeF_cons_nil. cbn [end_side].
+      eapply yP_skip; [unfold PM; cbn [next]; rewrite H; reflexivity|].
+      eapply (yP_item _ _ _ _ _ (la, sta)); [unfold PM; cbn [next]; reflexivity|apply HE].
+    - rewrite mergeF_cons_nil. cbn [end_side]. eapply yP_fail. unfold PM. cbn [next]. rewrite H. reflexivity.
+    - eapply yP_skip; [unfold PM; cbn [next]; rewrite H; reflexivity|exact IH].
+    - eapply yP_skip; [unfold PM; cbn [next]; rewrite H; reflexivity|].
+      rewrite mergeF_cons_cons. destruct (less x v) as [[|]|e] eqn:El.
+      + eapply yP_item'; [unfold PM; cbn [next]; rewrite El; reflexivity|].
+        apply (IHA (Some v) q' items st Hy).
+      + eapply yP_item'; [unfold PM; cbn [next]; rewrite El; reflexivity|exact IH].
+      + eapply yP_fail. unfold PM. cbn [next]. rewrite El. reflexivity.
+  Qed.
+
+  (* no element of the first list is waiting *)
+  Lemma merge_main : forall q1 la sta, yields p1 q1 la sta ->
+    forall b q2 lb stb, yields p2 q2 lb stb ->
+    yieldsP PM (QMerge false false None b q1 q2) (mergeF la sta (ob b ++ lb) stb).
+  Proof.
+    intros q1 la sta H. induction H as [q|q l H|q l e H|q l q' items st H Hy IH|q l v q' items st H Hy IH];
+      intros b q2 lb stb H2.
+    - apply Y_open.
+    - cbn [mergeF end_side]. eapply yP_skip; [unfold PM; cbn [next]; rewrite H; reflexivity|].
+      apply merge_a_ended. exact H2.
+    - cbn [mergeF end_side]. eapply yP_fail. unfold PM. cbn [next]. rewrite H. reflexivity.
+    - eapply yP_skip; [unfold PM; cbn [next]; rewrite H; reflexivity|apply IH; exact H2].
+    - eapply yP_skip; [unfold PM; cbn [next]; rewrite H; reflexivity|].
+      assert (HE : forall q2x, yieldsP PM (QMerge false true None None q' q2x) (items, st)).
+      { intros q2x. apply merge_b_ended. exact Hy. }
+      destruct b as [y|]; cbn [ob app].
+      + rewrite mergeF_cons_cons. destruct (less v y) as [[|]|e] eqn:El.
+        * eapply yP_item'; [unfold PM; cbn [next]; rewrite El; reflexivity|].
+          apply (IH (Some y) q2 lb stb H2).
+        * eapply yP_item'; [unfold PM; cbn [next]; rewrite El; reflexivity|].
+          apply merge_a_waiting; assumption.
+        * eapply yP_fail. unfold PM. cbn [next]. rewrite El. reflexivity.
+      + apply merge_a_waiting; assumption.
+  Qed.
+
+  (* mergeF is the specification's fuelled merge *)
+  Lemma spec_merge_mergeF : forall F la lb sta stb, (length la + length lb < F)%nat ->
+    spec_merge F less la lb sta stb = mergeF la sta lb stb.
+  Proof.
+    induction F as [|F IH]; intros la lb sta stb Hf; [lia|].
+    destruct la as [|x ra]; destruct lb as [|y rb]; cbn [spec_merge]; try reflexivity.
+    rewrite mergeF_cons_cons. cbn [length] in Hf. destruct (less x y) as [[|]|e]; try reflexivity.
+    - rewrite IH by (cbn [length]; lia). destruct (mergeF ra sta (y :: rb) stb). reflexivity.
+    - rewrite IH by (cbn [length]; lia). destruct (mergeF (x :: ra) sta rb stb). reflexivity.
+  Qed.
+End Merge.
+
+(* ------------------------------------------------------------------ all pipelines *)
+
+Lemma pipe_yields_all : forall p N, yieldsP p (init p) (spec_pipe N p).
+Proof.
+  induction p as [n|l|s p IH|p1 IH1 p2 IH2|ci g p1 IH1 p2 IH2|ci less p1 IH1 p2 IH2|cx p IH]; intros N;
+    cbn [init spec_pipe].
+  - destruct (Z.ltb_spec (Z.of_nat N) n); unfold yieldsP; cbn [fst snd].
+    + apply numbers_open. lia.
+    + apply numbers_closed. lia.
+  - destruct (Nat.ltb_spec N (length l)); unfold yieldsP; cbn [fst snd].
+    + apply list_open.
+    + apply list_closed.
+  - specialize (IH N). destruct (spec_pipe N p) as [items st]. unfold yieldsP in IH. cbn [fst snd] in IH.
+    rewrite <- sfun_init. apply stage_yields. exact IH.
+  - specialize (IH1 N). specialize (IH2 N).
+    destruct (spec_pipe N p1) as [i1 st1]. destruct (spec_pipe N p2) as [i2 st2].
+    unfold yieldsP in *. cbn [fst snd] in *.
+    pose proof (app_left p1 p2 (init p1) (init p2) i1 st1 IH1 i2 st2 (fun _ => IH2)) as R.
+    destruct st1; exact R.
+  - specialize (IH1 N). specialize (IH2 N).
+    destruct (spec_pipe N p1) as [la sta]. destruct (spec_pipe N p2) as [lb stb].
+    unfold yieldsP in IH1, IH2. cbn [fst snd] in IH1, IH2.
+    rewrite <- (crossF_spec g p2 lb stb IH2 la sta).
+    apply cross_outer; assumption.
+  - specialize (IH1 N). specialize (IH2 N).
+    destruct (spec_pipe N p1) as [la sta]. destruct (spec_pipe N p2) as [lb stb].
+    unfold yieldsP in IH1, IH2. cbn [fst snd] in IH1, IH2.
+    rewrite spec_merge_mergeF by lia.
+    apply (merge_main ci less p1 p2 (init p1) la sta IH1 None (init p2) lb stb IH2).
+  - apply through_yields. apply IH.
+Qed.
+
+(* value agreement for every pipeline, every consumer, every source: whenever the eager specification
+   decides the result on some prefix N of the sources, the lazy machine returns exactly that result *)
+Lemma run_refines_spec : forall p t N o,
+  spec_term t (spec_pipe N p) = Some o ->
+  exists F, forall fuel, (F <= fuel)%nat -> exists l n, run fuel t p = (l, o, n).
+Proof.
+  intros p t N o Hs. destruct (term_none_dec' t) as [E|E].
+  - subst t. destruct (spec_pipe N p). cbn in Hs. inversion Hs; subst. exists O. intros fuel _.
+    eexists. eexists. reflexivity.
+  - pose proof (pipe_yields_all p N) as Hy. destruct (spec_pipe N p) as [items st].
+    unfold yieldsP in Hy. cbn [fst snd] in Hy.
+    rewrite <- (tdec_spec t items st E) in Hs.
+    destruct (loop_decided p t (init p) items st Hy tst0 o Hs) as [F HF].
+    exists F. intros fuel Hf. destruct (HF fuel Hf) as [l [n El]]. exists l, n.
+    destruct t; try congruence; exact El.
+Qed.
+
+Lemma run_refines_spec_need : forall B p t N o,
+  spec_need B t p = Some (N, o) ->
+  exists F, forall fuel, (F <= fuel)%nat -> exists l n, run fuel t p = (l, o, n).
+Proof. intros B p t N o H. eapply run_refines_spec. eapply spec_need_sound. exact H. Qed.
